@@ -49,6 +49,11 @@ pub struct Profile {
     pub full_withdraw_pct: u64,
     /// chance (percent) that an outflow from a locked container is sized against liquid + locked
     pub aim_locked_pct: u64,
+    /// chance (percent) that an outflow from a locked container asks for liquid + one grid unit
+    pub just_above_pct: u64,
+    /// chance (percent) per step of the directed lock-table steps (three distinct locks on one
+    /// vault; drop the smallest, then aim just above the liquid part)
+    pub directed_pct: u64,
 }
 
 impl Profile {
@@ -67,7 +72,7 @@ impl Profile {
         w[C_DEPOSIT_WORKTOP] = 4;
         w[C_BADGE] = 7;
         w[C_DROP_MANY] = 1;
-        Profile { min_steps: 1, max_steps: 14, w, fault_pct: 4, leave_pct: 4, account_fee_pct: 15, focus: None, full_withdraw_pct: 0, aim_locked_pct: 10 }
+        Profile { min_steps: 1, max_steps: 14, w, fault_pct: 4, leave_pct: 4, account_fee_pct: 15, focus: None, full_withdraw_pct: 0, aim_locked_pct: 10, just_above_pct: 0, directed_pct: 0 }
     }
     /// worktop / bucket moves
     pub fn worktop() -> Profile {
@@ -86,7 +91,7 @@ impl Profile {
         w[C_DEPOSIT_WORKTOP] = 4;
         w[C_BADGE] = 3;
         w[C_DROP_MANY] = 0;
-        Profile { min_steps: 1, max_steps: 16, w, fault_pct: 6, leave_pct: 10, account_fee_pct: 5, focus: None, full_withdraw_pct: 0, aim_locked_pct: 10 }
+        Profile { min_steps: 1, max_steps: 16, w, fault_pct: 6, leave_pct: 10, account_fee_pct: 5, focus: None, full_withdraw_pct: 0, aim_locked_pct: 10, just_above_pct: 0, directed_pct: 0 }
     }
     /// proofs interleaved with outflows
     pub fn proofs() -> Profile {
@@ -109,7 +114,7 @@ impl Profile {
         w[C_DEPOSIT] = 3;
         w[C_DEPOSIT_WORKTOP] = 1;
         w[C_BADGE] = 5;
-        Profile { min_steps: 5, max_steps: 22, w, fault_pct: 2, leave_pct: 2, account_fee_pct: 3, focus: None, full_withdraw_pct: 40, aim_locked_pct: 20 }
+        Profile { min_steps: 5, max_steps: 22, w, fault_pct: 2, leave_pct: 2, account_fee_pct: 3, focus: None, full_withdraw_pct: 40, aim_locked_pct: 20, just_above_pct: 12, directed_pct: 12 }
     }
 }
 
@@ -344,7 +349,93 @@ impl<'a, 'g, 't> G<'a, 'g, 't> {
         }
     }
 
+    /// Directed lock-table steps. (a) A signer's vault with >= 3 live locks of distinct amounts:
+    /// drop a proof holding the smallest one, then withdraw liquid + one grid unit (must fail) or
+    /// exactly the liquid part (must succeed). (b) Otherwise create three proofs of distinct
+    /// amounts on one vault.
+    fn directed(&mut self) -> bool {
+        let cands: Vec<(usize, usize, usize)> = self
+            .tx
+            .vault_cont
+            .iter()
+            .filter(|(k, c)| self.tx.conts[**c].flocks.len() >= 3 && self.tx.owner_ok(k.0))
+            .map(|(k, c)| (k.0, k.1, *c))
+            .collect();
+        if !cands.is_empty() {
+            let (acct, res, c) = *self.g.pick(&cands);
+            let min = *self.tx.conts[c].flocks.keys().next().unwrap();
+            let is_min = |p: &ProofM| p.evidence.len() == 1 && p.evidence[0].0 == c && p.evidence[0].1 == PAmt::F(min);
+            let named = self.tx.proofs.iter().find(|(_, p)| is_min(p)).map(|(k, _)| *k);
+            let in_zone = self.tx.zone.iter().rposition(|p| is_min(p));
+            let zone_len = self.tx.zone.len();
+            self.allow_boring = false;
+            let pid = match (named, in_zone) {
+                (Some(k), _) => k,
+                (None, Some(i)) => {
+                    for _ in 0..(zone_len - i) {
+                        if !self.push(C_POP, Ins::Pop) {
+                            return true;
+                        }
+                    }
+                    self.tx.next_proof - 1
+                }
+                _ => return false,
+            };
+            if !self.push(C_DROP, Ins::DropProof { p: pid }) || self.failed.is_some() {
+                return true;
+            }
+            let Liquid::F(l) = self.tx.conts[c].liquid else { return true };
+            let grid = self.wd.res[res].grid();
+            let amount = if self.g.chance(2, 3) { l + grid } else { l };
+            self.push(C_WITHDRAW, Ins::Withdraw { acct, res, amount });
+            return true;
+        }
+        // (b) build three distinct locks
+        let Some(res) = self.prof.focus.as_ref().and_then(|f| f.first().copied()) else { return false };
+        if !self.wd.res[res].is_f() {
+            return false;
+        }
+        let grid = self.wd.res[res].grid();
+        let accts: Vec<usize> = self
+            .tx
+            .signers
+            .iter()
+            .copied()
+            .filter(|a| self.tx.owner_ok(*a) && self.tx.peek_vault(*a, res).map(|v| v.amount() >= 3 * grid && v.flocks.len() < 3).unwrap_or(false))
+            .collect();
+        if accts.is_empty() {
+            return false;
+        }
+        let acct = *self.g.pick(&accts);
+        let units = (self.tx.peek_vault(acct, res).unwrap().amount() / grid).min(3000) as u64;
+        let third = (units / 3).max(1);
+        let a = 1 + self.g.below(third);
+        let b = a + 1 + self.g.below(third);
+        let c3 = (b + 1 + self.g.below(third)).min(units.max(b + 1));
+        if c3 > units {
+            return false;
+        }
+        let mut v = [a, b, c3];
+        let k = self.g.below(6) as usize;
+        v.swap(0, k % 3);
+        v.swap(1, 1 + (k / 3) % 2);
+        self.allow_boring = false;
+        for x in v {
+            if !self.push(C_PROOF_ACCOUNT, Ins::AccountProofAmount { acct, res, amount: x as A * grid }) {
+                break;
+            }
+        }
+        true
+    }
+
     fn step(&mut self) {
+        if self.prof.directed_pct > 0 && self.g.chance(self.prof.directed_pct, 100) {
+            let done = self.directed();
+            self.allow_boring = true;
+            if done {
+                return;
+            }
+        }
         let fault = self.g.chance(self.prof.fault_pct, 100);
         let cat = self.g.weighted(&self.prof.w);
         let before = self.ins.len();
@@ -390,7 +481,10 @@ impl<'a, 'g, 't> G<'a, 'g, 't> {
                 match &v.liquid {
                     Liquid::F(l) => {
                         let aim = if v.locked() && self.g.chance(self.prof.aim_locked_pct, 100) { v.amount() } else { *l };
-                        let amount = self.amount(res, aim, fault);
+                        let mut amount = self.amount(res, aim, fault);
+                        if v.locked() && !fault && self.g.chance(self.prof.just_above_pct, 100) {
+                            amount = *l + self.wd.res[res].grid();
+                        }
                         if res == XRD_R && self.g.chance(1, 8) && !fault {
                             self.push(cat, Ins::LockFeeAndWithdraw { acct, fee: 25 * ONE, res, amount: amount.min((*l - 25 * ONE).max(0)) });
                         } else {
